@@ -214,3 +214,145 @@ Proof.
 Qed.
 
 End GenTime.
+
+(* ---------- the value relation of the optimizer proof absorbs the C01 relation ---------- *)
+
+(* v0: value of the unoptimized program; v1: value of the optimized program in the reference
+   semantics; v: the value generated code computes where the reference semantics computes v1 (same
+   bodies, the closures capture only what they use).  Then v is a value of the optimized program for
+   v0 as well.  This is what lets a constant computed at Generate time stand where the program would
+   have computed v1. *)
+Section Comp.
+Variable known : list (N * list name).
+Local Notation V := (OptRel.vrel known).
+
+Lemma Forall2_comp (l : list value) :
+  Forall (fun v => forall v0 v1, V v0 v1 -> Sim.vrel v1 v -> V v0 v) l ->
+  forall l0 l1, Forall2 V l0 l1 -> Forall2 Sim.vrel l1 l -> Forall2 V l0 l.
+Proof.
+  induction 1 as [|v l Hv Hl IH]; intros l0 l1 H01 H1.
+  - inversion H1; subst. inversion H01; subst. constructor.
+  - inversion H1; subst. inversion H01; subst. constructor; eauto.
+Qed.
+
+Lemma Forall2_comp_map (m : list (str * value)) :
+  Forall (fun e => forall v0 v1, V v0 v1 -> Sim.vrel v1 (snd e) -> V v0 (snd e)) m ->
+  forall m0 m1,
+    Forall2 (fun e1 e2 => fst e1 = fst e2 /\ V (snd e1) (snd e2)) m0 m1 ->
+    Forall2 (fun e1 e2 => fst e1 = fst e2 /\ Sim.vrel (snd e1) (snd e2)) m1 m ->
+    Forall2 (fun e1 e2 => fst e1 = fst e2 /\ V (snd e1) (snd e2)) m0 m.
+Proof.
+  induction 1 as [|e m He Hm IH]; intros m0 m1 H01 H1.
+  - inversion H1; subst. inversion H01; subst. constructor.
+  - inversion H1 as [|e1 e' m1' m' [K1 R1] T1]; subst. inversion H01 as [|e0 e1' m0' m1'' [K0 R0] T0]; subst.
+    constructor; [split; [congruence|eauto]|eauto].
+Qed.
+
+Theorem vrel_comp : forall v v0 v1, V v0 v1 -> Sim.vrel v1 v -> V v0 v.
+Proof.
+  induction v as [z|f|s|b|l IH|m IH|ps b c2 s2 IH|t] using value_ind3; intros v0 v1 H0 H1.
+  - inversion H1; subst. exact H0.
+  - inversion H1; subst. exact H0.
+  - inversion H1; subst. exact H0.
+  - inversion H1; subst. exact H0.
+  - inversion H1; subst. inversion H0; subst. constructor. eapply Forall2_comp; eauto.
+  - inversion H1; subst. inversion H0; subst. constructor. eapply Forall2_comp_map; eauto.
+  - inversion H1 as [| | | | | | |ps' b' c1 c2' s1 s2' HA HB HW]; subst.
+    inversion H0 as [| | | | | | |s ps' b0 b' env0 env' self0 self' Hb Hs Hself Henv]; subst.
+    apply vr_clo with (s := s); auto.
+    + (* the own name *)
+      destruct HB as [-> | ->]; [|exact Hself].
+      destruct self0 as [|c0 self0']; [left; reflexivity|right]. split; [reflexivity|].
+      destruct Hself as [-> | [-> Hd]]; [|exact Hd].
+      destruct (fv (c0 :: self0') b) eqn:F; [left|right; reflexivity].
+      destruct (wf_fv _ _ _ _ HW F) as [Hin|Hin].
+      * apply in_map_iff in Hin. destruct Hin as (p & E & Hp). inversion E; subst. apply in_mem_name; auto.
+      * exfalso. unfold clo_cm in Hin. rewrite app_nil_r in Hin.
+        destruct (lookup_in_some _ _ Hin) as [w L]. destruct (HA _ _ L) as [[E|E] _]; [discriminate|].
+        apply E. reflexivity.
+    + (* the environments on the names the body uses *)
+      intros x F M Ls. specialize (Henv x F M Ls).
+      rewrite mem_name_app' in M. apply orb_false_iff in M. destruct M as [Mp Mt].
+      destruct (wf_fv _ _ _ _ HW F) as [Hin|Hin].
+      * exfalso. apply in_map_iff in Hin. destruct Hin as (p & E & Hp). inversion E; subst.
+        rewrite (in_mem_name _ _ Hp) in Mp. discriminate.
+      * unfold clo_cm in Hin. apply in_app_or in Hin. destruct Hin as [Hin|Hin].
+        -- destruct (lookup_in_some _ _ Hin) as [w L]. destruct (HA _ _ L) as [_ (w1 & L1 & R1)].
+           rewrite L1 in Henv. rewrite L. inversion Henv as [|w0 w1' R0]; subst. constructor.
+           rewrite Forall_forall in IH. apply (IH (x, w) (lookup_in _ _ _ L) w0 w1 R0 R1).
+        -- exfalso. destruct s2 as [|c0 s2']; [destruct Hin|]. destruct Hin as [<-|[]].
+           destruct HB as [B|B]; [discriminate|]. subst s1.
+           destruct Hself as [E|[E _]]; [|discriminate]. subst self0.
+           cbn [this_names mem_name] in Mt. rewrite str_eqb_refl in Mt. discriminate.
+  - inversion H1; subst. exact H0.
+Qed.
+
+End Comp.
+
+(* ---------- constants computed from well-formed constants are well-formed ---------- *)
+
+Lemma orel_ok_cwf r v : Sim.orel r (Ok v) -> cwf v.
+Proof. intros H. inversion H; subst. eapply vrel_cwf_r; eauto. Qed.
+
+Lemma calc_cwf op a b v : cwf a -> cwf b -> calc op a b = Ok v -> cwf v.
+Proof.
+  intros Ha Hb E. apply (orel_ok_cwf (calc op a b)). rewrite <- E.
+  apply OpsProofs.calc_rel; apply cwf_vrel; auto.
+Qed.
+
+Lemma ucalc_cwf op a v : cwf a -> ucalc op a = Ok v -> cwf v.
+Proof.
+  intros Ha E. apply (orel_ok_cwf (ucalc op a)). rewrite <- E. apply OpsProofs.ucalc_rel; apply cwf_vrel; auto.
+Qed.
+
+Lemma access_list_cwf l i v : cwf l -> cwf i -> access_list l i = Ok v -> cwf v.
+Proof.
+  intros Hl Hi E. apply (orel_ok_cwf (access_list l i)). rewrite <- E.
+  apply OpsProofs.access_list_rel; apply cwf_vrel; auto.
+Qed.
+
+Lemma access_map_cwf m k v : cwf m -> access_map m k = Ok v -> cwf v.
+Proof.
+  intros Hm E. apply (orel_ok_cwf (access_map m k)). rewrite <- E.
+  apply OpsProofs.access_map_rel; apply cwf_vrel; auto.
+Qed.
+
+Lemma run_static_cwf f cs v : Forall cwf cs -> run_static f cs = Ok v -> cwf v.
+Proof.
+  intros Hc E. apply (orel_ok_cwf (run_static f cs)). rewrite <- E.
+  apply LibProofs.run_static_rel. apply cwf_list_vrel; auto.
+Qed.
+
+Lemma cwf_VList vs : Forall cwf vs -> cwf (VList vs).
+Proof. cbn [cwf]. induction 1; auto. Qed.
+
+Lemma cwf_VMap (vs : list (str * value)) : Forall (fun e => cwf (snd e)) vs -> cwf (VMap vs).
+Proof. cbn [cwf]. induction 1; auto. Qed.
+
+Section GenTimeRel.
+Variable known : list (N * list name).
+Variable fuel : nat.
+
+(* an application at Generate time: the reference semantics computes, with the same fuel, a value
+   that the C01 relation relates to the result *)
+Theorem gapp_rel c cs v :
+  cwf c -> Forall cwf cs -> gapp known fuel c cs = Ok v ->
+  exists v1, r_app (eval known fuel) c cs = Ok v1 /\ Sim.vrel v1 v.
+Proof.
+  intros Hc Hcs G.
+  pose proof (sim_app _ _ (exec_sim_at known fuel) c c cs cs (cwf_vrel _ Hc) (cwf_list_vrel _ Hcs)) as O.
+  rewrite <- gapp_is_g_app, G in O. inversion O as [v1 v2 Hv E1 E2| | | |]; subst. eauto.
+Qed.
+
+Theorem method_rel rv m cs v :
+  cwf rv -> Forall cwf cs -> run_method (gapp known fuel) rv m cs = Ok v ->
+  exists v1, run_method (r_app (eval known fuel)) rv m cs = Ok v1 /\ Sim.vrel v1 v.
+Proof.
+  intros Hr Hcs G.
+  pose proof (run_method_rel (r_app (eval known fuel)) (g_app (exec known fuel))
+                (sim_app _ _ (exec_sim_at known fuel)) rv rv m cs cs (cwf_vrel _ Hr) (cwf_list_vrel _ Hcs)) as O.
+  change (g_app (exec known fuel)) with (gapp known fuel) in O. rewrite G in O.
+  inversion O as [v1 v2 Hv E1 E2| | | |]; subst. eauto.
+Qed.
+
+End GenTimeRel.
